@@ -152,8 +152,10 @@ DropCaches(ix, f) ==
 \* did_close -> cleanup_file_cache (mod.rs:283): the document's cached text is dropped, so every reader falls back to the file ON
 \* DISK -- which differs from the buffer when the edits were never saved.  Deviation close_keeps_version: the version stamp that
 \* validates OTHER files' memoised answers (available fixtures, imported fixtures, cycles) does not move.
+\* (the ghost lastOk is reset as well: once the buffer is discarded, the file's latest valid content is what is on disk)
 CloseFn(ix, D, f) ==
-    IF "close_keeps_version" \in D THEN DropCaches(ix, f) ELSE [DropCaches(ix, f) EXCEPT !.version = @ + 1]
+    LET d == [DropCaches(ix, f) EXCEPT !.lastOk[f] = NoMod]
+    IN  IF "close_keeps_version" \in D THEN d ELSE [d EXCEPT !.version = @ + 1]
 RECURSIVE DropAll(_, _)
 DropAll(ix, S) == IF S = {} THEN ix ELSE LET f == CHOOSE x \in S : TRUE IN DropAll(DropCaches(ix, f), S \ {f})
 
